@@ -35,11 +35,16 @@ Transparent(o) ==
 \* the spec's own shape calculus agrees with NumPy (a disagreement is a specification error, not a violation)
 ShapeCalcOK(o) == o.oshape_spec = <<-1>> \/ o.oshape_spec = o.out_shape
 
+\* C07 per configuration: the Hessian-vector products computed by reverse-over-reverse, forward-over-reverse, reverse-over-forward
+\* and forward-over-forward agree (1e-9), the Hessian is symmetric, and they equal the derivative of the first-order gradient
+SecondOrder(o) == o.second_checked => (o.second_nbad = 0 /\ o.second_sym_bad = 0 /\ o.second_num_bad = 0 /\ ~o.second_box)
+
 Holds(prop, o) == CASE prop = "C01" -> RevExact(o)
                     [] prop = "C02" -> FwdExact(o)
                     [] prop = "C04" -> Adjoint(o)
                     [] prop = "C05" -> GradInArgSpace(o)
                     [] prop = "C06" -> Transparent(o)
+                    [] prop = "C07" -> SecondOrder(o)
                     [] prop = "C09" -> RevExact(o) /\ FwdExact(o)
                     [] prop = "C11" -> RevExact(o) /\ FwdExact(o)
 =============================================================================
